@@ -139,6 +139,10 @@ func runS13(c *core.Ctx) {
 			c.Undecided(cn, fd.Pos(), "cannot enumerate emitted sequences")
 			continue
 		}
+		if anyTrunc(seqs) {
+			c.Undecided(cn, fd.Pos(), "a helper could not be inlined within the path budget")
+			continue
+		}
 		c.Analysed(handlerName(a.pk, fd))
 		xw := map[string]bool{}
 		for _, sq := range seqs {
